@@ -3,6 +3,7 @@ import RactorModel.Lemmas.AdmissionLate
 import RactorModel.Lemmas.AdmissionIds
 import RactorModel.Lemmas.AdmissionQueue
 import RactorModel.Lemmas.AdmissionOrder
+import RactorModel.Lemmas.AdmissionBack
 
 /-!
 The run-time oracle `Obs.violations` (Model/Admission.lean) holds of every end state of the model:
@@ -45,11 +46,13 @@ structure Reach (g : G) : Prop where
   ids : ∀ i, IdInv i g
   q : QInv g.sh
   ord : ∀ m1 m2, OrdInv m1 m2 g
+  back : BackInv g
 
 theorem reach_run (progs : List (List Op)) (sched : List Tid) : Reach (run (init progs) sched) :=
   ⟨inv_run _ sched (inv_init progs), lateInv_run _ sched (lateInv_init progs),
    fun i => idInv_run i _ sched (idInv_init i progs), qinv_run _ sched (qinv_init progs),
-   fun m1 m2 => ordInv_run m1 m2 _ sched (idInv_init m1 progs) (idInv_init m2 progs) (ordInv_init m1 m2 progs)⟩
+   fun m1 m2 => ordInv_run m1 m2 _ sched (idInv_init m1 progs) (idInv_init m2 progs) (ordInv_init m1 m2 progs),
+   backInv_run _ sched (backInv_init progs)⟩
 
 /-- `closed` and no op in flight: the marker bit is set (C07 (5), state form). -/
 theorem Reach.marker_of_closed {g : G} (R : Reach g) (hq : cnt Frame.active g = 0)
@@ -208,7 +211,7 @@ theorem violations_nil {g : G} (R : Reach g) (he : endState g = true) : (obsOf g
         omega
       rw [Q.handled_eq, List.append_assoc] at hord
       exact orderedIn_prefix _ _ _ _ hord
-  have c4 : g.sh.rets.all (fun r => !(r.isSend && r.late) || r.res == .sendErr) = true := by
+  have c4 : g.sh.rets.all (fun r => !(r.isSend && r.late) || r.res.isSendErr) = true := by
     rw [List.all_eq_true]
     intro r hr
     have := List.countP_eq_zero.mp R.late.late_log r hr
@@ -217,7 +220,7 @@ theorem violations_nil {g : G} (R : Reach g) (he : endState g = true) : (obsOf g
       Bool.not_true, Bool.true_or, Bool.false_or, Bool.and_self]
     simp only [Ret.isSend] at hs
     have := this ⟨hs, hl⟩
-    cases hres : r.res <;> simp_all
+    cases hres : r.res <;> simp_all [Res.isSendErr]
   have hA : cnt Frame.holds g = 0 := by
     have := cnt_le_of_imp Frame.holds Frame.active active_of_holds g; omega
   have c5 : g.sh.word.count = 0 := by rw [I.count_eq]; exact hA
@@ -275,7 +278,12 @@ theorem violations_nil {g : G} (R : Reach g) (he : endState g = true) : (obsOf g
         · rw [hm] at h1; simp at h1; omega
         · rfl
       simp [(I.marker_imp hm).1]
-  simp only [Obs.violations, obsOf, c1, c2, c3, cOrd, c4, c5, c6, hdr, c8, c9, ↓reduceIte, List.append_nil,
+  have c10 : g.sh.rets.all (fun r => !r.backBad) = true := by
+    rw [List.all_eq_true]
+    intro r hr
+    have := List.countP_eq_zero.mp R.back.back_log r hr
+    simpa using this
+  simp only [Obs.violations, obsOf, c1, c2, c3, cOrd, c4, c5, c6, hdr, c8, c9, c10, ↓reduceIte, List.append_nil,
     beq_self_eq_true]
 
 /-- Whenever the live receiver's mailbox is quiet, every send that has returned `Ok` has been handled
@@ -310,15 +318,16 @@ theorem violations_nil_clauses (o : Obs) (h : o.violations = []) :
     o.handled.all (fun i => o.rets.any (fun r => r.isOkSend && r.id == i)) = true ∧
     (o.otherExit || o.rets.all (fun r => !r.isOkSend || o.handled.contains r.id)) = true ∧
     o.rets.all (fun r2 => !r2.isOkSend || r2.seenOk.all (fun m1 => orderedIn m1 r2.id o.handled)) = true ∧
-    o.rets.all (fun r => !(r.isSend && r.late) || r.res == .sendErr) = true ∧
+    o.rets.all (fun r => !(r.isSend && r.late) || r.res.isSendErr) = true ∧
     (o.word.count == 0) = true ∧
     (!o.word.closed || o.word.marker) = true ∧
     o.drainedExits ≤ 1 ∧
     (!o.word.closed || o.otherExit || (o.drainedExits == 1 && !o.alive)) = true ∧
-    (o.word.closed || o.drainedExits == 0) = true := by
+    (o.word.closed || o.drainedExits == 0) = true ∧
+    o.rets.all (fun r => !r.backBad) = true := by
   simp only [Obs.violations, List.append_eq_nil_iff] at h
-  obtain ⟨⟨⟨⟨⟨⟨⟨⟨⟨h1, h2⟩, h3⟩, h4⟩, h5⟩, h6⟩, h7⟩, h8⟩, h9⟩, h10⟩ := h
-  refine ⟨?_, ?_, ?_, ?_, ?_, ?_, ?_, ?_, ?_, ?_⟩
+  obtain ⟨⟨⟨⟨⟨⟨⟨⟨⟨⟨h1, h2⟩, h3⟩, h4⟩, h5⟩, h6⟩, h7⟩, h8⟩, h9⟩, h10⟩, h11⟩ := h
+  refine ⟨?_, ?_, ?_, ?_, ?_, ?_, ?_, ?_, ?_, ?_, ?_⟩
   · split at h1 <;> simp_all
   · split at h2 <;> simp_all
   · split at h3 <;> simp_all
@@ -329,5 +338,6 @@ theorem violations_nil_clauses (o : Obs) (h : o.violations = []) :
   · split at h8 <;> simp_all
   · split at h9 <;> simp_all
   · split at h10 <;> simp_all
+  · split at h11 <;> simp_all
 
 end Admission
